@@ -3,17 +3,8 @@
 From Coq Require Import List ZArith Bool Arith Lia.
 Import ListNotations.
 From SAV.orm Require Import SessTxn SessTxnBase SessTxnSpec SessTxnInv SessTxnOps SessTxnRestore SessTxnRestore2
-  SessTxnShift SessTxnStmts SessTxnFlush SessTxnDbInv SessTxnCore SessTxnFlushCore SessTxnTx FlushFail FlushFailInv.
+  SessTxnShift SessTxnStmts SessTxnFlush SessTxnDbInv SessTxnCore SessTxnFlushCore SessTxnTx SessTxnMain FlushFail FlushFailInv.
 Open Scope nat_scope.
-
-Lemma Good_no_pending : forall st, GoodS st -> snew st = [] -> no_pending st = true.
-Proof.
-  intros st G Hn. unfold no_pending. apply forallb_forall. intros o Ho. apply in_seq in Ho. cbn in Ho.
-  unfold is_pending. destruct (okey (objs st o)) eqn:Ek; auto.
-  destruct (oatt (objs st o)) eqn:Ea; auto.
-  assert (X : In o (snew st)). { apply (g_new _ _ _ _ _ G). repeat split; auto. lia. }
-  rewrite Hn in X. destruct X.
-Qed.
 
 (* Session.rollback() from any state of the invariant *)
 Lemma rollback_from_inv : forall st, Inv st ->
@@ -70,6 +61,45 @@ Proof.
   split; [exists gs; exact C1|]. split; [exact N|]. split; [exact Hh|]. split; [exact F|].
   destruct (rollback_from_inv s1 (ex_intro _ gs C1)) as (s2 & E & I2 & S2 & Cl & _).
   exists s2. auto.
+Qed.
+
+(* ---- histories: the guarded operations of C33 and faulty flushes (no restriction on the fault) ---- *)
+Definition fguard (st : sess) (p : fop) : bool := match p with Plain q => guard st q | Faulty _ => true end.
+Inductive FReach (e : bool) : sess -> Prop :=
+  | freach_init : FReach e (sess0 e)
+  | freach_step : forall st p r st', FReach e st -> fguard st p = true -> do_fop p st = (r, st') ->
+      r <> Unmodelled -> FReach e st'.
+
+Theorem freach_inv : forall e st, FReach e st -> Inv st.
+Proof.
+  intros e st H. induction H; [apply inv_init|].
+  destruct p as [q|ft]; cbn [do_fop fguard] in *.
+  - eapply do_op_inv; eauto.
+  - destruct IHFReach as [gs C]. destruct (flush_fault_core ft st gs r st' C H1 H2) as [C' _]. exists gs. exact C'.
+Qed.
+
+Theorem nothing_committed_reach : forall e ft st r s1, FReach e st -> flush_fault ft st = (r, s1) -> r <> Unmodelled ->
+  committed s1 = committed st /\
+  exists s2, do_op ORollback s1 = (Ok, s2) /\ committed s2 = committed st /\ work s2 = committed st /\ stack s2 = [].
+Proof. intros e ft st r s1 R. apply nothing_committed. eapply freach_inv; eauto. Qed.
+
+Theorem after_rollback_agree_reach : forall e ft st r s1, FReach e st -> flush_fault ft st = (r, s1) -> r <> Unmodelled ->
+  exists s2, do_op ORollback s1 = (Ok, s2) /\ agrees s2 = true /\ no_pending s2 = true /\ is_clean s2 = true.
+Proof. intros e ft st r s1 R. apply after_rollback_objects_agree_with_db. eapply freach_inv; eauto. Qed.
+
+(* the failing flush and the rollback after it stay inside the guarded histories: everything C33 proves
+   about guarded histories holds for whatever follows (the re-run) *)
+Theorem recoverable_reach : forall e ft st r s1, FReach e st -> flush_fault ft st = (r, s1) -> r <> Unmodelled ->
+  FReach e s1 /\ nobj s1 = nobj st /\ handles s1 = handles st /\
+  (r <> Ok -> hd_state s1 = hd_state st \/ (hd_state st = Some ACTIVE /\ hd_state s1 = Some DEACTIVE /\ is_clean s1 = true)) /\
+  exists s2, do_op ORollback s1 = (Ok, s2) /\ FReach e s2 /\ stack s2 = [] /\ is_clean s2 = true.
+Proof.
+  intros e ft st r s1 R H Hr.
+  assert (R1 : FReach e s1) by (eapply (freach_step e st (Faulty ft)); eauto).
+  destruct (session_recoverable ft st r s1 (freach_inv e st R) H Hr) as (_ & N & Hh & F & s2 & E2 & _ & S2 & Cl2).
+  split; [exact R1|]. split; [exact N|]. split; [exact Hh|]. split; [exact F|].
+  exists s2. split; [exact E2|]. split; [|auto].
+  eapply (freach_step e s1 (Plain ORollback)); eauto; discriminate.
 Qed.
 
 Open Scope Z_scope.
